@@ -51,6 +51,8 @@ func ruleFilterOps(r *Report) {
 		}
 		var ops []string
 		okArgs := true
+		countedSteps := map[*ssa.Function]bool{}
+		var stepCalls []stepCall
 		var closure *ssa.Function
 		var unionSel *bool // the per-block step of Union is chosen before the call (a φ of two functions)
 		loops := pairLoops(r)
@@ -95,13 +97,33 @@ func ruleFilterOps(r *Report) {
 				okArgs = false
 				continue
 			}
+			if len(steps) == 1 && name == "(*column.Txn).Union" {
+				dup := false
+				for _, sc := range stepCalls {
+					if sc.site == c.Site {
+						dup = true
+					}
+				}
+				if !dup {
+					stepCalls = append(stepCalls, stepCall{site: c.Site, ops: stepOps(steps[0])})
+				}
+			}
 			closure = steps[0]
 			// the column handed over is the one looked up for this name
-			colArg, _ := normE(cc.Args[1], c.Env, false)
-			if cl, ok := extractOf(colArg, 0); !ok || !calleeIs(&cl.Call, "(*column.Txn).columnAt") {
-				okArgs = false
+			// (at the layer that is handed the column; a delegate that takes the name looks it up itself)
+			if isNamed(derefType(cc.Args[1].Type()), ModPath, "column") {
+				colArg, _ := normE(cc.Args[1], c.Env, false)
+				if cl, ok := extractOf(colArg, 0); !ok || !calleeIs(&cl.Call, "(*column.Txn).columnAt") {
+					okArgs = false
+				}
 			}
 			for _, step := range steps {
+				// one step function handed down through several layers (With → combine → rangeReadPair)
+				// is found at each layer: it is one step
+				if countedSteps[step] {
+					continue
+				}
+				countedSteps[step] = true
 				for _, o := range callsWhere(step, func(_ ssa.Instruction, c2 *ssa.CallCommon) bool {
 					return methodOn(c2, "github.com/kelindar/bitmap", "Bitmap", "And", "AndNot", "Or", "Xor", "Clear", "Set", "Remove", "Ones")
 				}) {
@@ -146,6 +168,9 @@ func ruleFilterOps(r *Report) {
 		}
 		if name == "(*column.Txn).Union" && unionSel != nil {
 			h.Check(*unionSel, name+"/first", r.P.Pos(fn.Pos()), "And only for the first column of a fresh selection", "Union does not intersect exactly for the first column of a fresh selection and join otherwise")
+		} else if name == "(*column.Txn).Union" && len(stepCalls) >= 2 {
+			// one call per step: combine(name, intersect) under `fresh && i == 0`, combine(name, unite) otherwise
+			h.Check(unionSelection(fn, nil, stepCalls), name+"/first", r.P.Pos(fn.Pos()), "And only for the first column of a fresh selection", "Union does not intersect exactly for the first column of a fresh selection and join otherwise")
 		} else if name == "(*column.Txn).Union" && closure != nil {
 			h.Check(unionFirstOK(fn, closure), name+"/first", r.P.Pos(fn.Pos()), "And only for the first column of a fresh selection", "Union does not intersect exactly for the first column of a fresh selection and join otherwise")
 		}
@@ -353,7 +378,17 @@ func isFirstIteration(v ssa.Value) bool {
 // selection was fresh at entry and this is the first column: either under a flag that starts as
 // !setup and is cleared at the end of every iteration, or under `fresh && i == 0`.
 func unionStepSelected(fn *ssa.Function, phi *ssa.Phi) bool {
-	blk := phi.Block()
+	return unionSelection(fn, phi, nil)
+}
+
+// unionSelection decides the same for a step chosen by a φ of two functions (phi) or by two separate
+// calls, each handing a fixed step function to the block loop (calls: the call site and the step's
+// operations): the intersecting call is executed exactly for the first column of a fresh selection.
+func unionSelection(fn *ssa.Function, phi *ssa.Phi, calls []stepCall) bool {
+	var blk *ssa.BasicBlock
+	if phi != nil {
+		blk = phi.Block()
+	}
 	// the recognised leaves and the value each has for "first column of a fresh selection"
 	type leafKind int
 	const (
@@ -380,8 +415,9 @@ func unionStepSelected(fn *ssa.Function, phi *ssa.Phi) bool {
 		return none, false
 	}
 	seen := map[leafKind]bool{}
+	reaches := map[leafKind]map[*ssa.BasicBlock]bool{}
 	feasible := func(flip leafKind) map[cfgEdge]bool {
-		_, feas := feasibleUnder(fn, func(c ssa.Value) (bool, bool) {
+		reach, feas := feasibleUnder(fn, func(c ssa.Value) (bool, bool) {
 			if b, isBool := c.Type().Underlying().(*types.Basic); !isBool || b.Kind() != types.Bool {
 				return false, false
 			}
@@ -395,6 +431,7 @@ func unionStepSelected(fn *ssa.Function, phi *ssa.Phi) bool {
 			}
 			return want, true
 		})
+		reaches[flip] = reach
 		return feas
 	}
 	feasT := feasible(none)
@@ -408,6 +445,36 @@ func unionStepSelected(fn *ssa.Function, phi *ssa.Phi) bool {
 		}
 	}
 	nAnd := 0
+	if phi == nil {
+		// two calls: which of them is reached when this is (not) the first column of a fresh selection
+		for _, c := range calls {
+			b := c.site.Block()
+			switch strings.Join(c.ops, ",") {
+			case "And":
+				nAnd++
+				if !reaches[none][b] {
+					return false
+				}
+				for _, k := range []leafKind{flag, fresh, firstIter} {
+					if seen[k] && reaches[k][b] {
+						return false
+					}
+				}
+			case "Or":
+				if reaches[none][b] {
+					// reached in the same iteration as the intersecting call?
+					for _, a := range calls {
+						if strings.Join(a.ops, ",") == "And" && reachAvoiding(a.site.Block(), b, func(x *ssa.BasicBlock) bool { return false }, nil) && !loopsBack(a.site.Block(), b) {
+							return false
+						}
+					}
+				}
+			default:
+				return false
+			}
+		}
+		return nAnd >= 1
+	}
 	for k, e := range phi.Edges {
 		f := asFunc(strip(e))
 		if f == nil {
@@ -665,8 +732,14 @@ func rulePresence(r *Report) {
 				}
 				pos = ins
 				ok = edgeGuarded(ins.Block(), func(cond ssa.Value) (bool, bool) {
-					if cl, ok := extractOf(cond, 1); ok && calleeIs(&cl.Call, "(*column.column).Value") {
-						return true, true
+					if cl, ok := extractOf(cond, 1); ok {
+						if calleeIs(&cl.Call, "(*column.column).Value") {
+							return true, true
+						}
+						// the Column behind the wrapper, asked directly (the wrapper's Value only forwards)
+						if cl.Call.IsInvoke() && cl.Call.Method.Name() == "Value" && isNamed(cl.Call.Value.Type(), ModPath, "Column") {
+							return true, true
+						}
 					}
 					return false, false
 				})
@@ -1443,6 +1516,36 @@ func ruleExpire(r *Report) {
 				}, 6)
 			}
 		}
+		// "never" is stored as 0 and Extend merges its delta into the stored value: the merge function of
+		// the expire column leaves 0 alone (with the default additive merge a row without a deadline gets
+		// one at epoch+delta and is removed by the next cleanup)
+		keeps := false
+		allInstrs(fn, func(ins ssa.Instruction) {
+			cl, ok := ins.(*ssa.Call)
+			if !ok || cl.Call.StaticCallee() == nil || originOf(cl.Call.StaticCallee()).Name() != "WithMerge" || len(cl.Call.Args) != 1 {
+				return
+			}
+			mf := asFunc(norm(cl.Call.Args[0]))
+			if mf == nil {
+				return
+			}
+			mf = originOf(mf)
+			if len(mf.Params) != 2 {
+				return
+			}
+			for _, ret := range returnsOf(mf) {
+				if z, isC := constInt(ret.Results[0]); isC && z == 0 {
+					if onCmpEdge(ret.Block(), func(x, y ssa.Value) bool {
+						zx, isZx := constInt(x)
+						zy, isZy := constInt(y)
+						return (sameExpr(x, mf.Params[0]) && isZy && zy == 0) || (sameExpr(y, mf.Params[0]) && isZx && zx == 0)
+					}, true) {
+						keeps = true
+					}
+				}
+			}
+		})
+		hw.Check(keeps, "column.NewCollection/expire-merge", r.P.Pos(fn.Pos()), "the expire column's merge leaves a zero deadline (never) alone", "the expire column merges with the default addition: Extend on a row without a deadline (stored as 0) yields epoch+delta, a deadline in the past, and the next cleanup removes the row")
 		hx.Check(created, "column.NewCollection/expire-column", r.P.Pos(fn.Pos()), "CreateColumn(\"expire\", ForInt64())", "the expire column is not created as an int64 column at construction")
 		var gos []*ssa.Go
 		allInstrs(fn, func(ins ssa.Instruction) {
@@ -2022,4 +2125,32 @@ func precedesAllReturns(ins ssa.Instruction, fn *ssa.Function) bool {
 		}
 	}
 	return len(rets) > 0
+}
+
+func derefType(t types.Type) types.Type {
+	if p, ok := t.Underlying().(*types.Pointer); ok {
+		return p.Elem()
+	}
+	return t
+}
+
+// stepCall: a call of the Union body that hands a fixed step function to the block loop.
+type stepCall struct {
+	site ssa.Instruction
+	ops  []string
+}
+
+// loopsBack: every path from a to b passes a loop head first (b is reached from a only in a later
+// iteration): there is a block that dominates both and lies in a cycle, and b is not reachable from
+// a without going through it.
+func loopsBack(a, b *ssa.BasicBlock) bool {
+	for _, h := range a.Parent().Blocks {
+		if h == a || h == b || !inCycle(h) {
+			continue
+		}
+		if h.Dominates(a) && h.Dominates(b) && !reachAvoiding(a, b, func(x *ssa.BasicBlock) bool { return x == h }, nil) {
+			return true
+		}
+	}
+	return false
 }
